@@ -19,27 +19,48 @@ import (
 // occurrence of a shared template is its own copy by construction.
 
 type mnode struct {
+	name     string // name as stored in the parent (display case)
 	kind     string
 	exec     bool
 	data     []byte
 	cas      bool // CAS-backed (immutable) regular file
 	content  int  // content index of a CAS-backed file
 	target   string
-	tmpl     int // template of a directory that came from the DAG, else -1
+	tmpl     int  // template of a directory that came from the DAG, else -1
 	expanded bool // model children materialised (lazy evaluation of the template; may run ahead of the real tree)
 	visited  bool // an executed step needed the contents, so the real directory has been asked to load them
 	children map[string]*mnode
 	occ1     int // 1 + template this directory is an expanded occurrence of (0 = none); statistics only
 }
 
+// names returns the display names of the children, sorted.
 func (n *mnode) names() []string {
 	out := make([]string, 0, len(n.children))
-	for k := range n.children {
-		out = append(out, k)
+	for _, c := range n.children {
+		out = append(out, c.name)
 	}
 	sort.Strings(out)
 	return out
 }
+
+// The children map is keyed by the normalized name: the name itself on a
+// case sensitive file system, its lower case form on a case insensitive
+// one (virtual.CaseInsensitiveComponentNormalizer).
+func (r *rig) norm(name string) string {
+	if r.w != nil && r.w.cfg.CaseInsensitive {
+		return strings.ToLower(name)
+	}
+	return name
+}
+
+func (r *rig) get(d *mnode, name string) *mnode { return d.children[r.norm(name)] }
+
+func (r *rig) put(d *mnode, name string, n *mnode) {
+	n.name = name
+	d.children[r.norm(name)] = n
+}
+
+func (r *rig) del(d *mnode, name string) { delete(d.children, r.norm(name)) }
 
 // identity of an immutable leaf: two leaves with the same identity may be
 // one object in the real tree (stateless handles are deduplicated).
@@ -100,18 +121,23 @@ type rig struct {
 	repairFn func() ([]int, []int)
 	merged   map[int]bool // action -> input root merged successfully
 	repaired bool
+	// MergeDirectoryContents calls that failed with EEXIST. The pinned code
+	// does not return the link counts of the root directory's leaves in that
+	// case (observation 1; proposed repair in proposed-fixes/0002-*.diff), which the handle diagnostic
+	// would report over and over.
+	mergeCollisions int
 
 	// Coverage facts.
-	badAccess    int         // answers that had to be (and were) a persistent I/O error
-	occExpanded  map[int]int // template -> occurrences whose contents an executed step asked for
-	mods         int         // successful local modifications
-	modsInShared int         // ... inside an occurrence of a template that occurs more than once
-	refused      int         // refused mutation attempts on CAS-backed files
-	refusedBy    map[string]int
-	casEntryEdits int        // local remove/replace/move of an entry that came from the input root
-	ioSeen       int         // operations that reported an I/O error
-	retriedOK    int         // faulted operations that succeeded when retried
-	ambiguous    int         // renames between two identical immutable leaves
+	badAccess     int         // answers that had to be (and were) a persistent I/O error
+	occExpanded   map[int]int // template -> occurrences whose contents an executed step asked for
+	mods          int         // successful local modifications
+	modsInShared  int         // ... inside an occurrence of a template that occurs more than once
+	refused       int         // refused mutation attempts on CAS-backed files
+	refusedBy     map[string]int
+	casEntryEdits int // local remove/replace/move of an entry that came from the input root
+	ioSeen        int // operations that reported an I/O error
+	retriedOK     int // faulted operations that succeeded when retried
+	ambiguous     int // renames between two identical immutable leaves
 }
 
 func newRig(w *world, mat *materialized) *rig {
@@ -173,7 +199,7 @@ func (r *rig) expand(n *mnode) {
 	if n.tmpl >= 0 {
 		n.occ1 = n.tmpl + 1
 		for _, e := range r.spec.Dirs[n.tmpl].Entries {
-			n.children[e.Name] = r.nodeFromEntry(e)
+			r.put(n, e.Name, r.nodeFromEntry(e))
 		}
 	}
 }
@@ -200,8 +226,8 @@ func (r *rig) modelDir(p []string) (*mnode, bool) {
 			return nil, false
 		}
 		r.touch(cur)
-		next, ok := cur.children[name]
-		if !ok || next.kind != kindDir {
+		next := r.get(cur, name)
+		if next == nil || next.kind != kindDir {
 			panic(fmt.Sprintf("harness bug: model has no directory %q on path %v", name, p))
 		}
 		cur = next
@@ -218,7 +244,7 @@ func (r *rig) modelDir(p []string) (*mnode, bool) {
 func (r *rig) inShared(p []string) bool {
 	cur := r.root
 	for _, name := range p {
-		cur = cur.children[name]
+		cur = r.get(cur, name)
 		if cur == nil {
 			return false
 		}
@@ -317,20 +343,20 @@ func renderFileInfo(fi filesystem.FileInfo) string {
 // Classification of results.
 
 var statusNames = map[virtual.Status]string{
-	virtual.StatusOK:          "ok",
-	virtual.StatusErrAccess:   "access",
-	virtual.StatusErrExist:    "exist",
-	virtual.StatusErrInval:    "inval",
-	virtual.StatusErrIO:       "io",
-	virtual.StatusErrIsDir:    "isdir",
-	virtual.StatusErrNoEnt:    "noent",
-	virtual.StatusErrNotDir:   "notdir",
-	virtual.StatusErrNotEmpty: "notempty",
-	virtual.StatusErrPerm:     "perm",
-	virtual.StatusErrSymlink:  "symlink",
-	virtual.StatusErrStale:    "stale",
-	virtual.StatusErrXDev:     "xdev",
-	virtual.StatusErrROFS:     "rofs",
+	virtual.StatusOK:           "ok",
+	virtual.StatusErrAccess:    "access",
+	virtual.StatusErrExist:     "exist",
+	virtual.StatusErrInval:     "inval",
+	virtual.StatusErrIO:        "io",
+	virtual.StatusErrIsDir:     "isdir",
+	virtual.StatusErrNoEnt:     "noent",
+	virtual.StatusErrNotDir:    "notdir",
+	virtual.StatusErrNotEmpty:  "notempty",
+	virtual.StatusErrPerm:      "perm",
+	virtual.StatusErrSymlink:   "symlink",
+	virtual.StatusErrStale:     "stale",
+	virtual.StatusErrXDev:      "xdev",
+	virtual.StatusErrROFS:      "rofs",
 	virtual.StatusErrWrongType: "wrongtype",
 }
 
